@@ -388,4 +388,43 @@ example : serve [.mk 0 [] [.raise (.lit 404)] false] true [.mk 0 [] [.pass 1, .a
 example : serve [.mk 0 [] [.answer .errCode] false] true [.mk 0 [] [.pass 1, .answer .empty] false] wReq
     = ⟨[⟨1, 1, some 500, some 500⟩], some 500⟩ := by decide
 
+/-! ## named routes and `invoke` -/
+
+/-- **a named route follows the same rules**: invoking a defined name evaluates that route by the
+    very function used for a listed route (`runRoute` = `wrapRoute`), in place, with the rest of
+    the chain as its continuation — matchers, group, terminal flag and all. -/
+theorem invoke_runs_named_route_in_place (env : List Route) (n : Nat) (rt : Route) (k : K) (r : Req) (t : Trace)
+    (h : lookupNamed env n = some rt) :
+    runHandler (inlineH env (.invoke n)) k r t = runRoute rt k r t := by
+  simp only [inlineH, h]
+  rw [subroute_same_rules]
+  simp [runRoutes]
+
+/-- invoking a name the server does not define is a plain error (status 500 unless handled) -/
+theorem unknown_invoke_is_plain_error (env : List Route) (n : Nat) (k : K) (r : Req) (t : Trace)
+    (h : lookupNamed env n = none) :
+    runHandler (inlineH env (.invoke n)) k r t = .err t 0 r := by
+  simp [inlineH, h, runHandler]
+
+example : lookupNamed [.mk 1 [[.atom .path [1]]] [.pass 7] true] 1 = some (.mk 1 [[.atom .path [1]]] [.pass 7] true) := rfl
+-- the named route is terminal: handler 5 behind the invoke does not run; the group it satisfies
+-- keeps the listed route of the same group from running in the error chain
+example : serveNamed [.mk 1 [[.atom .path [1]]] [.pass 7, .invoke 2] true, .mk 0 [] [.pass 8] false]
+      [.mk 0 [] [.invoke 1, .pass 5] false] false [] wReq
+    = ⟨[⟨7, 1, none, none⟩, ⟨8, 1, none, none⟩], none⟩ := by decide
+example : serveNamed [.mk 0 [] [.pass 7] false] [.mk 0 [] [.invoke 2, .pass 5] false] false [] wReq
+    = ⟨[], some 500⟩ := by decide
+
+/-- **every defined name is resolved**: when named routes only invoke later-named ones (the
+    acyclicity rule; a cycle is unbounded recursion in the Go code), `inlineNamed` leaves no
+    `invoke` of a defined name behind — what `serveNamed` hands to `serve` fails with "route not
+    found" only for names the server really does not define. -/
+theorem inline_resolves_every_defined_name (env rs : List Route) (hv : namedValid 0 env = true) :
+    rsUnresolved env (inlineNamed env env.length rs) = false := by
+  apply rsResolved
+  have := inlineNamed_resGt env hv env.length 0 rs (rsResGt_zero env rs)
+  simpa using this
+
+example : namedValid 0 [.mk 1 [[.atom .path [1]]] [.pass 7, .invoke 2] true, .mk 0 [] [.pass 8, .invoke 3] false] = true := by decide
+
 end CaddyModel.C05
